@@ -28,9 +28,23 @@
 (* that stops on the error first (it must violate NothingReadIsLost; it    *)
 (* guards the invariant against vacuity).                                  *)
 (*                                                                         *)
-(* Stream bytes are identified by their position: the k-th byte Read       *)
-(* returns in direction d has identity k; `delivered[d]` is the sequence   *)
-(* of identities the destination accepted.                                 *)
+(* Stream bytes are identified by direction and position: the k-th byte    *)
+(* Read returns in direction d has identity Id(d, k) (k for up, -k for     *)
+(* down, so a byte of one stream is recognisable inside the other);        *)
+(* `delivered[d]` is the sequence of identities the destination accepted.  *)
+(*                                                                         *)
+(* BUFFER OWNERSHIP is explicit.  The relay memory of a session is a slab  *)
+(* of 2 * BufCap cells (`mem`); direction d relays through the cells       *)
+(* Base(d)+1 .. Base(d)+Cap(d).  A Read stores the n <= Cap(d) bytes it    *)
+(* returns there (a connection may fill whatever buffer it is handed), a   *)
+(* Write hands the destination whatever those cells hold AT THAT MOMENT.   *)
+(* BufMode = "private" (intended): the two regions are disjoint halves.    *)
+(* BufMode = "shared" (deliberately broken): the up region keeps the       *)
+(* capacity of the whole slab, so it overlaps the down direction's live    *)
+(* buffer - a Write of one direction can observe the other direction's     *)
+(* bytes; it must violate PrefixFidelity (and BufferIntegrity) while byte  *)
+(* counts and teardown stay intact.  `buf[d]` stays as the ghost of what   *)
+(* direction d read (what it believes it is holding).                      *)
 (***************************************************************************)
 EXTENDS Integers, Sequences, FiniteSets, TLC
 
@@ -39,11 +53,14 @@ CONSTANTS MaxReads,        \* reads that return data or (0,nil), per direction (
           ReadErrs,        \* error kinds a Read may return, e.g. {"EOF","RST","EPIPE","timeout","other","closed"}
           WriteErrs,       \* error kinds a Write may return
           ForwardWithErr,  \* TRUE: intended relay; FALSE: stops before forwarding data that came with an error
-          DialMayFail      \* TRUE: Proxy's dial-error path is part of the model
+          DialMayFail,     \* TRUE: Proxy's dial-error path is part of the model
+          BufCap,          \* cells of relay memory each direction owns (a Read returns at most what its buffer takes)
+          BufMode          \* "private": disjoint relay buffers (intended) | "shared": up's buffer runs on into down's
 
 VARIABLES pcP,        \* Proxy: "dial" | "run" | "returned"
           pc,         \* [Dirs -> "idle","h0","h1","rd","wr","s0","s1","cd","done"]
-          buf,        \* [Dirs -> Seq(Nat)]  identities held between Read and Write
+          buf,        \* [Dirs -> Seq(Int)]  identities held between Read and Write (ghost: what the direction read)
+          mem,        \* [Slab -> Int]       the session's relay memory: what the cells really hold (0: never written)
           rerr,       \* [Dirs -> BOOLEAN]   the Read that filled buf also returned an error
           rdpos,      \* [Dirs -> Nat]       bytes returned by Read so far (= the stream "sent" so far)
           nreads,     \* [Dirs -> Nat]       bounding counter
@@ -61,17 +78,28 @@ Conns == {"client", "covert"}
 Src(d) == IF d = "up" THEN "client" ELSE "covert"
 Dst(d) == IF d = "up" THEN "covert" ELSE "client"
 
-vars == <<pcP, pc, buf, rerr, rdpos, nreads, delivered, bytes, refused, closes, asrc, comp, sessions, obs>>
-view == <<pcP, pc, buf, rerr, rdpos, nreads, delivered, bytes, refused, closes, asrc, comp, sessions>>
+vars == <<pcP, pc, buf, mem, rerr, rdpos, nreads, delivered, bytes, refused, closes, asrc, comp, sessions, obs>>
 
-Ids(from, n) == [i \in 1..n |-> from + i]
-IsPrefixIds(s) == \A i \in 1..Len(s) : s[i] = i
+Id(d, k) == IF d = "up" THEN k ELSE 0 - k
+Ids(d, from, n) == [i \in 1..n |-> Id(d, from + i)]
+IsPrefixIds(d, s) == \A i \in 1..Len(s) : s[i] = Id(d, i)
+
+\* ---- relay memory ----
+Slab == 1..(2 * BufCap)
+Base(d) == IF d = "up" THEN 0 ELSE BufCap
+\* "shared": the up slice was cut from the slab without bounding its capacity and the relay loop uses all of it
+Cap(d) == IF BufMode = "shared" /\ d = "up" THEN 2 * BufCap ELSE BufCap
+Window(d, n) == [i \in 1..n |-> mem[Base(d) + i]]                 \* what the first n cells of d's buffer hold now
+Fill(d, s) == [c \in Slab |-> IF c - Base(d) \in 1..Len(s) THEN s[c - Base(d)] ELSE mem[c]]
+\* cells nobody holds are dead (always rewritten by a Read before a Write looks at them): hidden from the VIEW
+LiveMem == [c \in Slab |-> IF \E d \in Dirs : pc[d] = "wr" /\ c - Base(d) \in 1..Len(buf[d]) THEN mem[c] ELSE 0]
+view == <<pcP, pc, buf, LiveMem, rerr, rdpos, nreads, delivered, bytes, refused, closes, asrc, comp, sessions>>
 
 \* ---- projection shared with the Go drivers (Appendix A of DESIGN.md, row Relay) ----
 Proj(dl, by, cl, pcs, ses, pp, cm) ==
   [du |-> Len(dl["up"]), dd |-> Len(dl["down"]),
    ku |-> cm["up"], kd |-> cm["down"],
-   fu |-> IsPrefixIds(dl["up"]), fd |-> IsPrefixIds(dl["down"]),
+   fu |-> IsPrefixIds("up", dl["up"]), fd |-> IsPrefixIds("down", dl["down"]),
    bu |-> by["up"], bd |-> by["down"],
    cc |-> cl["client"], cv |-> cl["covert"],
    xu |-> pcs["up"] = "done", xd |-> pcs["down"] = "done",
@@ -86,6 +114,7 @@ Obs(a, d, c, n, e, off) ==
 Init == /\ pcP = "dial"
         /\ pc = [d \in Dirs |-> "idle"]
         /\ buf = [d \in Dirs |-> <<>>]
+        /\ mem = [c \in Slab |-> 0]
         /\ rerr = [d \in Dirs |-> FALSE]
         /\ rdpos = [d \in Dirs |-> 0]
         /\ nreads = [d \in Dirs |-> 0]
@@ -108,14 +137,14 @@ Dial(e) ==
        THEN /\ pcP' = "run" /\ sessions' = sessions + 1
             /\ pc' = [d \in Dirs |-> "h0"]
        ELSE /\ pcP' = "returned" /\ UNCHANGED <<sessions, pc>>
-  /\ UNCHANGED <<buf, rerr, rdpos, nreads, delivered, bytes, refused, closes, asrc, comp>>
+  /\ UNCHANGED <<buf, mem, rerr, rdpos, nreads, delivered, bytes, refused, closes, asrc, comp>>
   /\ obs' = Obs("Dial", "-", "covert", 0, e, 0)
 
 \* wg.Wait() ; removeSession ; print summary
 Return ==
   /\ pcP = "run" /\ \A d \in Dirs : pc[d] = "done"
   /\ pcP' = "returned" /\ sessions' = sessions - 1
-  /\ UNCHANGED <<pc, buf, rerr, rdpos, nreads, delivered, bytes, refused, closes, asrc, comp>>
+  /\ UNCHANGED <<pc, buf, mem, rerr, rdpos, nreads, delivered, bytes, refused, closes, asrc, comp>>
   /\ obs' = Obs("Return", "-", "-", 0, "nil", 0)
 
 \* ------------------------------ halfPipe ------------------------------
@@ -131,37 +160,41 @@ SetDeadline(d, e) ==
   /\ e \in {"nil", "err"}
   /\ IF e = "nil" THEN pc' = [pc EXCEPT ![d] = DlNext(pc[d])] /\ UNCHANGED asrc
                   ELSE ToClose(d)
-  /\ UNCHANGED <<pcP, buf, rerr, rdpos, nreads, delivered, bytes, refused, closes, comp, sessions>>
+  /\ UNCHANGED <<pcP, buf, mem, rerr, rdpos, nreads, delivered, bytes, refused, closes, comp, sessions>>
   /\ obs' = Obs("SetDeadline", d, DlConn(d), 0, e, 0)
 
 Read(d, n, e) ==
   /\ pc[d] = "rd"
   /\ n \in ChunkSizes \cup {0}
+  /\ n <= Cap(d)                       \* a Read returns at most what the buffer it was handed takes - and may fill it
   /\ e \in ReadErrs \cup {"nil"}
   /\ (n > 0 \/ e = "nil") => nreads[d] < MaxReads
   /\ nreads' = [nreads EXCEPT ![d] = IF n > 0 \/ e = "nil" THEN @ + 1 ELSE @]
   /\ rdpos' = [rdpos EXCEPT ![d] = @ + n]
   /\ CASE e = "nil" /\ n = 0 ->        \* legal for an io.Reader: nothing to write, refresh the deadlines
-            /\ pc' = [pc EXCEPT ![d] = "s0"] /\ UNCHANGED <<buf, rerr, asrc>>
+            /\ pc' = [pc EXCEPT ![d] = "s0"] /\ UNCHANGED <<buf, mem, rerr, asrc>>
        [] e = "nil" /\ n > 0 ->
             /\ pc' = [pc EXCEPT ![d] = "wr"] /\ UNCHANGED asrc
-            /\ buf' = [buf EXCEPT ![d] = Ids(rdpos[d], n)]
+            /\ buf' = [buf EXCEPT ![d] = Ids(d, rdpos[d], n)]
+            /\ mem' = Fill(d, Ids(d, rdpos[d], n))
             /\ rerr' = [rerr EXCEPT ![d] = FALSE]
        [] e # "nil" /\ n > 0 /\ ForwardWithErr ->   \* data together with EOF / an error: forward, then stop
             /\ pc' = [pc EXCEPT ![d] = "wr"] /\ UNCHANGED asrc
-            /\ buf' = [buf EXCEPT ![d] = Ids(rdpos[d], n)]
+            /\ buf' = [buf EXCEPT ![d] = Ids(d, rdpos[d], n)]
+            /\ mem' = Fill(d, Ids(d, rdpos[d], n))
             /\ rerr' = [rerr EXCEPT ![d] = TRUE]
        [] OTHER ->                        \* (0, err) - or the non-forwarding instance
-            /\ ToClose(d) /\ UNCHANGED <<buf, rerr>>
+            /\ ToClose(d) /\ UNCHANGED <<buf, mem, rerr>>
   /\ UNCHANGED <<pcP, delivered, bytes, refused, closes, comp, sessions>>
   /\ obs' = Obs("Read", d, Src(d), n, e, 0)
 
-\* dst.Write(buf): k bytes taken.  e = "nil" with k < n is a short write (io.ErrShortWrite).
+\* dst.Write(buf[:nr]): k bytes taken - the destination gets what the buffer's cells hold NOW, which is what
+\* the direction read only if nobody else wrote to them.  e = "nil" with k < n is a short write (io.ErrShortWrite).
 Write(d, k, e) ==
   /\ pc[d] = "wr"
   /\ k \in 0..Len(buf[d])
   /\ e \in WriteErrs \cup {"nil"}
-  /\ delivered' = [delivered EXCEPT ![d] = @ \o SubSeq(buf[d], 1, k)]
+  /\ delivered' = [delivered EXCEPT ![d] = @ \o Window(d, k)]
   /\ bytes' = [bytes EXCEPT ![d] = @ + k]
   /\ refused' = [refused EXCEPT ![d] = @ + (Len(buf[d]) - k)]
   /\ buf' = [buf EXCEPT ![d] = <<>>]
@@ -169,7 +202,7 @@ Write(d, k, e) ==
   /\ IF e = "nil" /\ k = Len(buf[d]) /\ ~rerr[d]
        THEN pc' = [pc EXCEPT ![d] = "s0"] /\ UNCHANGED asrc
        ELSE ToClose(d)
-  /\ UNCHANGED <<pcP, rdpos, nreads, closes, comp, sessions>>
+  /\ UNCHANGED <<pcP, mem, rdpos, nreads, closes, comp, sessions>>
   /\ obs' = Obs("Write", d, Dst(d), k, e, Len(buf[d]))
 
 \* closeConn(dst) ; stats.completed ; wg.Done.  A failing Close leaves nothing more to do.
@@ -179,7 +212,7 @@ CloseDst(d, e) ==
   /\ closes' = [closes EXCEPT ![Dst(d)] = @ + 1]
   /\ comp' = [comp EXCEPT ![d] = bytes[d]]
   /\ pc' = [pc EXCEPT ![d] = "done"]
-  /\ UNCHANGED <<pcP, buf, rerr, rdpos, nreads, delivered, bytes, refused, asrc, sessions>>
+  /\ UNCHANGED <<pcP, buf, mem, rerr, rdpos, nreads, delivered, bytes, refused, asrc, sessions>>
   /\ obs' = Obs("Close", d, Dst(d), 0, e, 0)
 
 \* the asynchronous closeConn(src): any time after the loop was left, possibly after Proxy returned
@@ -188,7 +221,7 @@ CloseSrc(d, e) ==
   /\ e \in {"nil", "err"}
   /\ closes' = [closes EXCEPT ![Src(d)] = @ + 1]
   /\ asrc' = [asrc EXCEPT ![d] = "done"]
-  /\ UNCHANGED <<pcP, pc, buf, rerr, rdpos, nreads, delivered, bytes, refused, comp, sessions>>
+  /\ UNCHANGED <<pcP, pc, buf, mem, rerr, rdpos, nreads, delivered, bytes, refused, comp, sessions>>
   /\ obs' = Obs("CloseAsync", d, Src(d), 0, e, 0)
 
 Half(d) == \/ \E e \in {"nil", "err"} : SetDeadline(d, e) \/ CloseDst(d, e)
@@ -212,9 +245,15 @@ TypeOK == /\ pcP \in {"dial", "run", "returned"}
                              /\ asrc[d] \in {"no", "pending", "done"}
                              /\ bytes[d] \in Nat /\ rdpos[d] \in Nat /\ refused[d] \in Nat
           /\ sessions \in {0, 1}
+          /\ mem \in [Slab -> Int]
+          /\ BufMode \in {"private", "shared"}
 
 \* delivered[d] is a prefix of what was read in direction d: nothing reordered, duplicated or invented
-PrefixFidelity == \A d \in Dirs : IsPrefixIds(delivered[d]) /\ Len(delivered[d]) <= rdpos[d]
+PrefixFidelity == \A d \in Dirs : IsPrefixIds(d, delivered[d]) /\ Len(delivered[d]) <= rdpos[d]
+
+\* between its Read and its Write a direction's buffer holds exactly what that Read returned: nobody else - in
+\* particular not the other direction of the same session - writes to the memory a direction relays through
+BufferIntegrity == \A d \in Dirs : pc[d] = "wr" => Window(d, Len(buf[d])) = buf[d]
 
 \* when a direction has ended, everything Read ever returned - including bytes returned together
 \* with the error - was delivered, except what a failed / short Write refused to take
